@@ -55,7 +55,7 @@ def run(ck):
         g = dict(g); g["orc"] = 0
         g["calls"] = [pcall(a, "iddict", extra=False) for a in FIT4]
         groups.append(g)
-    for g in gen.cover_families(ck.rng, 300 if q else 20000, maxn=30):
+    for g in gen.cover_families(ck.rng, 300 if q else 20000, maxn=30) + gen.near_miss_families(ck.rng, 60 if q else 600):
         g = dict(g); g["orc"] = 0
         g["calls"] = [pcall(a, "iddict", extra=False) for a in COVERS]
         groups.append(g)
